@@ -41,9 +41,39 @@ func sanitize(s string) string {
 	return b.String()
 }
 
+func isNumeral(t Term) bool {
+	if t == "" {
+		return false
+	}
+	for i := 0; i < len(t); i++ {
+		if t[i] < '0' || t[i] > '9' {
+			return false
+		}
+	}
+	return true
+}
+
 func app(op string, args ...Term) Term {
 	if len(args) == 0 {
 		return op
+	}
+	if len(args) == 2 && (op == "+" || op == "-") {
+		a, b := args[0], args[1]
+		if b == "0" {
+			return a
+		}
+		if a == "0" && op == "+" {
+			return b
+		}
+		if isNumeral(a) && isNumeral(b) && len(a) < 18 && len(b) < 18 {
+			var x, y int64
+			fmt.Sscan(a, &x)
+			fmt.Sscan(b, &y)
+			if op == "+" {
+				return num(x + y)
+			}
+			return num(x - y)
+		}
 	}
 	return "(" + op + " " + strings.Join(args, " ") + ")"
 }
